@@ -121,6 +121,14 @@ MatchSigs(env, sigs, keys, is, ik) ==
          ELSE IF cls = "valid" THEN MatchSigs(env, sigs, keys, is - 1, ik - 1)
          ELSE MatchSigs(env, sigs, keys, is, ik - 1)
 
+\* a number of up to 5 bytes: sign, whether the magnitude is >= 2^31, bit 31 of the magnitude, and the low 31 bits
+Num5(v) ==
+    IF Len(v) <= 4 THEN LET x == Num(v) IN [neg |-> x < 0, big |-> FALSE, bit31 |-> FALSE, low |-> Abs(x)]
+    ELSE LET top == v[5] % 128                                   \* bits 32..38 of the magnitude
+             b4 == v[4] IN
+         [neg |-> v[5] >= 128 /\ (top # 0 \/ b4 # 0 \/ v[3] # 0 \/ v[2] # 0 \/ v[1] # 0),
+          big |-> top # 0 \/ b4 >= 128, bit31 |-> b4 >= 128,
+          low |-> v[1] + 256 * v[2] + 65536 * v[3] + 16777216 * (b4 % 128)]
 \* ------------------------------------------------------------ lock times
 \* env.locktime: Nat (< 2^31), env.seqfinal: BOOLEAN (sequence = 0xffffffff), env.version: Nat,
 \* env.seqdisable: BOOLEAN (bit 31 of the sequence), env.seqtype: BOOLEAN (bit 22), env.seqval: 0..65535
@@ -265,15 +273,23 @@ StepOp(s, c, env, D) ==
                  ELSE IF c = OP_CHECKMULTISIG THEN Set(s, rest \o <<BoolV(res = "true")>>)
                       ELSE IF res = "true" THEN Set(s, rest) ELSE Fail(s)
   \* lock times
+  \* lock-time operands are numbers of up to 5 bytes (values up to 2^39-1): Num5 decomposes them without leaving the
+  \* 32-bit integer range of TLC
   ELSE IF c = OP_CLTV THEN
        IF "cltv-deviations" \in D
-       THEN (IF n < 1 THEN Fail(s) ELSE IF CltvDev(env, Num(Top(st, 1))) THEN s ELSE Fail(s))
-       ELSE IF n < 1 \/ ~IsNum(Top(st, 1)) THEN Fail(s)
-            ELSE IF CltvOK(env, Num(Top(st, 1))) THEN s ELSE Fail(s)
+       THEN (IF n < 1 \/ Len(Top(st, 1)) > 4 THEN Fail(s) ELSE IF CltvDev(env, Num(Top(st, 1))) THEN s ELSE Fail(s))
+       ELSE IF n < 1 \/ Len(Top(st, 1)) > 5 THEN Fail(s)
+            ELSE LET v == Num5(Top(st, 1)) IN
+                 \* a value >= 2^31 exceeds every transaction lock time of this model (env.locktime < 2^31)
+                 IF v.neg \/ v.big THEN Fail(s)
+                 ELSE IF CltvOK(env, v.low) THEN s ELSE Fail(s)
   ELSE IF c = OP_CSV THEN
        IF "csv-always-true" \in D THEN s
-       ELSE IF n < 1 \/ ~IsNum(Top(st, 1)) THEN Fail(s)
-            ELSE IF CsvOK(env, Num(Top(st, 1))) THEN s ELSE Fail(s)
+       ELSE IF n < 1 \/ Len(Top(st, 1)) > 5 THEN Fail(s)
+            ELSE LET v == Num5(Top(st, 1)) IN
+                 IF v.neg THEN Fail(s)
+                 ELSE IF v.bit31 THEN s                        \* disable flag of the operand: behaves as a NOP
+                 ELSE IF CsvOK(env, v.low) THEN s ELSE Fail(s)
   ELSE Fail(s)      \* not an implemented opcode
 
 Step(s, it, env, D) ==
